@@ -424,6 +424,25 @@ func enumMasks(s Session, dir, off int) []string {
 	return res
 }
 
+func contains(list []string, v string) bool {
+	for _, x := range list {
+		if x == v {
+			return true
+		}
+	}
+	return false
+}
+
+// segStart returns the start of the segment that holds the offset.
+func segStart(lay []Seg, dir, off int) int {
+	for _, s := range lay {
+		if s.Dir == dir && off >= s.Start && off < s.End {
+			return s.Start
+		}
+	}
+	return -1
+}
+
 func caseHash(seed int64, i int) uint64 {
 	h := fnv.New64a()
 	fmt.Fprintf(h, "%d/%d", seed, i)
@@ -443,7 +462,7 @@ func TestEnumerate(t *testing.T) {
 		if only != "" && !strings.Contains(","+only+",", ","+s.Prog+circName(s)+",") {
 			continue
 		}
-		rep, err := p.do(Request{S: s})
+		rep, err := p.do(Request{S: s, WantTrans: true})
 		if err != nil || rep.Skip != "" {
 			t.Errorf("enumerated session %d cannot run honestly: %v %s", si, err, rep.Skip)
 			continue
@@ -472,14 +491,51 @@ func TestEnumerate(t *testing.T) {
 					lo, hi = max(rl, 0), min(rh, n)
 				}
 			}
+			var honest []byte
+			if len(rep.Trans) == 2 {
+				honest, _ = hex.DecodeString(rep.Trans[dir])
+			}
 			for off := lo; off < hi; off++ {
-				// The evaluator's argument description of the array /
-				// struct sessions is small and decides what the evaluator
-				// feeds in: the quick tier covers it with four masks.
-				desc := (s.Prog == "arrarg" || s.Prog == "structarg") &&
-					strings.HasPrefix(kindAt(rep.Layout, dir, off), "evalarg-")
-				for _, m := range enumMasks(s, dir, off) {
-					if desc && (m == "01" || m == "02" || m == "04" || m == "80") {
+				kind := kindAt(rep.Layout, dir, off)
+				masks := enumMasks(s, dir, off)
+				run := map[string]bool{} // masks the quick tier always runs
+				// The evaluator's argument description of the array / struct /
+				// slice sessions is small and decides what the evaluator feeds in.
+				if (s.Prog == "arrarg" || s.Prog == "structarg" || s.Prog == "slicearg") &&
+					strings.HasPrefix(kind, "evalarg-") {
+					for _, m := range []string{"01", "02", "04", "80"} {
+						run[m] = true
+					}
+				}
+				// A decimal digit of a type text: every other digit (another
+				// width or count that may still be consistent with the sizes).
+				if strings.HasSuffix(kind, "-text") && off < len(honest) &&
+					honest[off] >= '0' && honest[off] <= '9' {
+					for d := byte('0'); d <= '9'; d++ {
+						if m := hex.EncodeToString([]byte{d ^ honest[off]}); d != honest[off] {
+							if !contains(masks, m) {
+								masks = append(masks, m)
+							}
+							if kind == "evalarg-text" {
+								run[m] = true
+							}
+						}
+					}
+				}
+				// Labels: the select (point-and-permute) bit = top bit of a
+				// label's first byte, and the lowest bit of its last byte.
+				if labelKinds[kind] {
+					if st := segStart(rep.Layout, dir, off); st >= 0 {
+						switch (off - st) % 16 {
+						case 0:
+							run["80"] = true
+						case 15:
+							run["01"] = true
+						}
+					}
+				}
+				for _, m := range masks {
+					if run[m] {
 						must[len(all)] = true
 					}
 					all = append(all, Case{S: s, C: Corruption{Dir: dir, Off: off, Mask: m}})
@@ -506,6 +562,7 @@ func TestEnumerate(t *testing.T) {
 		mine = append(mine, cs)
 	}
 	col.Count("enumerate-domain", len(all)/max(nsh, 1))
+	col.Count("enumerate-always-run", len(must)/max(nsh, 1))
 
 	// Execute with all workers busy, book the outcomes in order.
 	futures := make([]chan ev.Outcome, len(mine))
